@@ -543,6 +543,7 @@ type exNode struct {
 	Holders []exHolder
 	OnCycle bool
 	Broken  bool // reaches a target that does not exist
+	IsRef   bool // the target is itself a `$ref` holder
 	scc     int
 }
 
@@ -558,7 +559,11 @@ type exInfo struct {
 }
 
 // exAnalyse computes the canonical reference graph reachable from the element positions of root.
-func exAnalyse(s exStore, root string) *exInfo {
+func exAnalyse(s exStore, root string) *exInfo { return exAnalyseAt(s, root) }
+
+// exAnalyseAt restricts the graph to what is reachable from the given element positions of the root
+// (pointers such as "/paths/~1x"; none = all of them).
+func exAnalyseAt(s exStore, root string, only ...string) *exInfo {
 	in := &exInfo{Root: root, Nodes: map[string]*exNode{}, Tags: map[string]bool{}, Acyclic: true}
 	var work []string
 	add := func(t exTarget, kind string) {
@@ -572,6 +577,15 @@ func exAnalyse(s exStore, root string) *exInfo {
 	}
 	for _, k := range exRootElements(s[root]) {
 		t := exTarget{root, exPtr(k.Path)}
+		if len(only) > 0 {
+			keep := false
+			for _, p := range only {
+				keep = keep || p == t.Ptr
+			}
+			if !keep {
+				continue
+			}
+		}
 		add(t, k.Kind)
 		in.Starts = append(in.Starts, t.String())
 		in.Tags["kind:"+k.Kind] = true
@@ -613,12 +627,11 @@ func exAnalyse(s exStore, root string) *exInfo {
 			t, ok := exCanonRef(n.T.Doc, r)
 			n.Out = append(n.Out, t.String())
 			add(t, k)
+			if len(p) == len(exPtrTokens(n.T.Ptr)) {
+				n.IsRef = true
+			}
 			if k != exSchema {
 				in.Tags["ref:"+k] = true
-				if n.T.Doc != root && len(p) == len(exPtrTokens(n.T.Ptr)) {
-					// an imported parameter/response/path item that is itself a reference: the second hop of a chain
-					in.Tags["chain2"] = true
-				}
 			}
 			if u, err := url.Parse(r); err == nil && u.Path != "" {
 				if t.Doc == n.T.Doc {
@@ -779,6 +792,15 @@ func (in *exInfo) classify(s exStore) {
 			in.Tags["other-host"] = true
 		case d != in.Root && strings.HasPrefix(u.Path, ru.Path):
 			in.Tags["prefix-sibling"] = true
+		}
+	}
+	// a parameter/response/path-item reference that crosses documents and lands on another reference:
+	// the next hop of the chain has to be read in the document just entered
+	for _, k := range in.Order {
+		for i, h := range in.Nodes[k].Holders {
+			if t := in.Nodes[in.Nodes[k].Out[i]]; h.Kind != exSchema && t != nil && t.IsRef && t.T.Doc != h.Doc {
+				in.Tags["chain2"] = true
+			}
 		}
 	}
 	for _, d := range in.directSchemaRefs {
